@@ -20,3 +20,26 @@ package core
 //@     invariant 0 <= rangeindex + 1 && rangeindex + 1 <= len(p)
 //@     invariant n == dec(p, rangeindex + 1) && alldigits(p, rangeindex + 1)
 //@     invariant 0 <= n && n < pow10(rangeindex + 1)
+
+//@ bind CConn = *rcproxy/core.conn
+//@ bind SConn = *rcproxy/core.conn
+//@ bind Conn = *rcproxy/core.conn
+//@ bind EventHandler = *rcproxy/core/server.listenServer
+
+//@ define hdr(buf) = buf.buf[buf.r + 1 : buf.r + codec.lf(buf) - 1]
+//@ define bulkok(buf) = codec.left(buf) >= 1 && codec.lf(buf) >= 2 && buf.buf[buf.r + codec.lf(buf) - 1] == '\r' && buf.buf[buf.r] == '$' && canon(hdr(buf))
+//@ define bulklen(buf) = dec(hdr(buf), len(hdr(buf)))
+//@ define datapos(buf) = buf.r + codec.lf(buf) + 1
+
+//@ func CRespCodec.parseLine
+//@   props C08 C12
+//@   modifies buf.r
+//@   requires buf != nil && codec.bwf(buf)
+//@   ensures[wf] codec.bwf(buf) && buf.r >= old(buf.r)
+//@   ensures[nonnil] result1 == nil ==> result0 != nil
+//@   ensures[ok] result1 == nil ==> old(bulkok(buf)) && buf.r == old(datapos(buf) + bulklen(buf) + 2)
+//@       && result0 == old(buf.buf[datapos(buf) : datapos(buf) + bulklen(buf)])
+//@       && old(buf.buf[datapos(buf) + bulklen(buf)]) == '\r' && old(buf.buf[datapos(buf) + bulklen(buf) + 1]) == '\n'
+//@   ensures[taxonomy] (result1 != nil && result1 != codec.ErrInvalidResp) ==> (result1 == codec.EmptyLine || result1 == codec.ShortLine || result1 == codec.ErrLFNotFound)
+//@   ensures[incomplete] (result1 == codec.ShortLine || result1 == codec.ErrLFNotFound) ==> result0 == nil
+//@   ensures[samebuf] buf.buf == old(buf.buf)
